@@ -661,6 +661,13 @@ def seq_spectrum(A):
                                   ("perfrequency2perwavenumber", "perwavenumber2perfrequency", 4),
                                   ("perwavenumber2perfrequency", "perfrequency2perwavenumber", 4)):
             a, g1 = call(F, first, q, f)
+            if q.ndim >= 3:
+                # the same spectrum in Fortran order (e.g. the transpose of a (lat, lon, f) cube)
+                aF, gF = call(F, first, np.asfortranarray(q), f)
+                _S["rec"].count("seq.spectrum.fortran_order_3d")
+                F.check("perconv-memory-order",
+                        ~(_relerr(aF, M.ld(a)) <= 2 * U) if np.shape(aF) == np.shape(a) else np.array([True]),
+                        {"func": first, "shape": list(np.shape(q))})
             b, g2 = call(F, second, a, g1)
             e1, e2 = _relerr(b, M.ld(q)), _relerr(g2, M.ld(f))
             _ratio("perconv.inverse", e1, tv * U)
@@ -949,6 +956,26 @@ def run_planck(ctx, rng, n):
         drive(ctx, "planck", {"f": fk, "T": Tm, "d": float(d[0])}, "bcast-sq" if square else "bcast-row",
               xx.size, "x-grid", _nt_x(xx) & (xx >= 1e-6) & (xx <= 600),
               (fk[None, :] + 0 * xx, Tm + 0 * xx))
+    # a result of more than 1e5 radiances (500 frequencies x 250 temperatures): same values as row by row
+    if ctx.spec.get("shard", 0) % 4 == 0 and not _S.get("big_done"):
+        _S["big_done"] = True
+        f, T, d, cls, x = gen_ft(rng, 700)       # (the generator drops some draws)
+        fb, Tb = f[:500, None], T[None, :250]
+        if fb.shape[0] == 500 and Tb.shape[1] == 250:
+            Fb = Fails()
+            try:
+                big = call(Fb, "planck", fb, Tb)
+                rows = np.stack([np.asarray(call(Fb, "planck", float(fb[i, 0]), Tb[0])) for i in range(0, 500, 25)])
+                ok = np.shape(big) == (500, 250)
+                err = _relerr(np.asarray(big)[::25], M.ld(rows)) if ok else np.array([np.inf])
+                xs = np.asarray(M.xval(_S["C"], fb[::25], Tb), dtype=float)
+                Fb.check("planck-large-result", ((xs >= XMIN) & (xs <= XMAX) & ~(err <= 2 * M.rel_planck(xs) + 4 * U))
+                         if ok else np.array([True]), {"shape": list(np.shape(big))})
+            except Abort:
+                pass
+            rec.count("seq.planck.large_result_calls")
+            for fl in Fb:
+                rec.violation(fl["key"], {"kind": "planck", "tag": "big-500x250", "args": {}}, fl["detail"])
     # scalar temperature against a frequency array, scalars, 0-d
     f, T, d, cls, x = gen_ft(rng, max(16, n // 40))
     x1 = np.asarray(M.xval(_S["C"], f, T[0]), dtype=float)
